@@ -26,7 +26,7 @@ CT = ["none", "application/json", "application/x-www-form-urlencoded", "multipar
 MAX = ["none", "1024", "MAX_2048", "4 * 1024"]
 MAXVAL = {"none": None, "1024": 1024, "MAX_2048": 2048, "4 * 1024": 4096}
 FLAG = ["absent", "true", "false"]
-DOCS = list(range(11))
+DOCS = list(range(12))
 EXTRACT = ["none", "query", "typed", "query+typed", "untyped", "stream", "multipart", "raw"]
 RET = ["ok", "created", "updated", "accepted", "raw", "deleted"]
 
@@ -159,6 +159,7 @@ def doc_shape(k, i):
         9: [L(f" Mixed {i}"), (f"#[doc = \" explicit attribute\\n second line of it\"]", " explicit attribute\n second line of it"),
             ("/** then a block\n   * with odd indent */", " then a block\n   * with odd indent "), L(" and a line")],
         10: [L(f"\tTabbed\tsummary {i}\t"), L("\t\tand\ta\ttabbed description\t"), L("\t")],
+        11: [L(f" List summary {i}"), L(" * bullet one"), L(" * bullet two"), L(" *emphasis* and 2 * 3"), L("* at the margin")],
     }
     items = shapes[k]
     return [s for s, _ in items], [v for _, v in items]
